@@ -198,11 +198,12 @@ impl CertConsumer for ASN1Writer<'_> {
         // Note: ASN1 has multiple strings, this is BIT String
 
         // Strip off the end zeroes
-        let mut last_byte = s.len() - 1;
+        // (an empty bit string, or one without any bit set, is not something we can encode)
+        let mut last_byte = s.len().checked_sub(1).ok_or(ErrorCode::InvalidData)?;
         let mut num_of_zero = 0;
         if truncate {
             while s[last_byte] == 0 {
-                last_byte -= 1;
+                last_byte = last_byte.checked_sub(1).ok_or(ErrorCode::InvalidData)?;
             }
             // For the last valid byte, identifying the number of last bits
             // that are 0s
